@@ -3,7 +3,7 @@
 
 namespace ratio
 {
-    disj_flaw::disj_flaw(solver &slv, std::vector<resolver *> causes, std::vector<smt::lit> lits) : flaw(slv, std::move(causes), false), lits(std::move(lits)) {}
+    disj_flaw::disj_flaw(solver &slv, std::vector<resolver *> causes, const smt::lit &disj, std::vector<smt::lit> lits) : flaw(slv, std::move(causes), false), disj(disj), lits(std::move(lits)) {}
 
     std::string disj_flaw::get_data() const noexcept { return "{\"type\":\"disj\", \"phi\":\"" + to_string(get_phi()) + "\", \"position\":" + std::to_string(get_position()) + "}"; }
 
@@ -11,6 +11,8 @@ namespace ratio
     {
         for (const auto &p : lits)
             add_resolver(*new choose_lit(smt::rational(1, static_cast<smt::I>(lits.size())), *this, p));
+        if (get_solver().get_sat_core().value(disj) != smt::True) // the disjunction is not (yet) known to hold: none of its literals has to..
+            add_resolver(*new deny_disj(smt::rational(1, static_cast<smt::I>(lits.size())), *this));
     }
 
     disj_flaw::choose_lit::choose_lit(smt::rational cst, disj_flaw &disj_flaw, const smt::lit &p) : resolver(p, cst, disj_flaw) {}
@@ -18,4 +20,14 @@ namespace ratio
     std::string disj_flaw::choose_lit::get_data() const noexcept { return "{\"rho\":\"" + to_string(get_rho()) + "\"}"; }
 
     void disj_flaw::choose_lit::apply() {}
+
+    disj_flaw::deny_disj::deny_disj(smt::rational cst, disj_flaw &disj_flaw) : resolver(cst, disj_flaw) {}
+
+    std::string disj_flaw::deny_disj::get_data() const noexcept { return "{\"rho\":\"" + to_string(get_rho()) + "\"}"; }
+
+    void disj_flaw::deny_disj::apply()
+    { // activating this resolver makes the disjunction false..
+        if (!get_solver().get_sat_core().new_clause({!get_rho(), !static_cast<disj_flaw &>(get_effect()).disj}))
+            throw unsolvable_exception();
+    }
 } // namespace ratio
